@@ -206,6 +206,76 @@ func ruleGuardRoot(c *Ctx, r *Rep) {
 	if n < 2 && c.Mod == modPath {
 		r.Undecided("floor:root-subscriber-sites", "", sprintf("%d root/subscriber registration sites found, expected 2", n))
 	}
+	// once the configuration is in the registry, no successful exit of the importer lies before the decision whether the
+	// entity joins the roots or a subscriber list (an entity that is in the registry but in neither list fails the
+	// consistency check of a valid hierarchy)
+	if root := c.configImporter(); root != nil {
+		var cfgStore ssa.Instruction
+		var regs []ssa.Instruction
+		isReg := func(ins ssa.Instruction) bool {
+			switch x := ins.(type) {
+			case *ssa.Store:
+				if fa, ok := x.Addr.(*ssa.FieldAddr); ok && fieldOfAddr(fa).Name() == "rootAliases" {
+					return true
+				}
+			case *ssa.MapUpdate:
+				if ld, ok := x.Map.(*ssa.UnOp); ok {
+					if fa, ok := ld.X.(*ssa.FieldAddr); ok && fieldOfAddr(fa).Name() == "subscribersOf" {
+						return true
+					}
+				}
+			}
+			return false
+		}
+		for _, b := range root.Blocks {
+			for _, ins := range b.Instrs {
+				if mu, ok := ins.(*ssa.MapUpdate); ok {
+					if m, isM := mu.Map.Type().Underlying().(*types.Map); isM && isString(m.Key()) && strings.HasSuffix(typeShort(c, m.Elem()), "config.CertificateContent") {
+						cfgStore = ins
+					}
+				}
+				if isReg(ins) {
+					regs = append(regs, ins)
+				}
+				if call, ok := ins.(*ssa.Call); ok {
+					if h := call.Call.StaticCallee(); h != nil && c.InModule(h) && h.Blocks != nil && h.Pkg == root.Pkg {
+						for _, hb := range h.Blocks {
+							for _, hi := range hb.Instrs {
+								if isReg(hi) {
+									regs = append(regs, ins)
+								}
+							}
+						}
+					}
+				}
+			}
+		}
+		if cfgStore != nil && len(regs) > 0 {
+			decision := regs[0].Block()
+			for _, g := range guardsOfRaw(regs[0].Block()) {
+				gb := g.If.Block()
+				if (cfgStore.Block() == gb || blockReaches(cfgStore.Block(), gb)) && gb.Dominates(decision) {
+					decision = gb
+				}
+			}
+			k := 0
+			for _, ret := range returnsOf(root) {
+				rr := retResults(ret)
+				if len(rr) == 0 {
+					continue
+				}
+				if e, ok := rr[len(rr)-1].(*ssa.Const); !ok || !e.IsNil() {
+					continue
+				}
+				if !(cfgStore.Block() == ret.Block() || cfgStore.Block().Dominates(ret.Block()) || blockReaches(cfgStore.Block(), ret.Block())) {
+					continue
+				}
+				k++
+				ok := decision == ret.Block() || decision.Dominates(ret.Block())
+				r.Check(ok, sprintf("registered-before-success|%s#%d", c.FuncKey(root), k), c.Pos(ret.Pos()), "a successful exit of the importer that follows the store into the registry lies behind the decision about roots and subscribers", okOr(ok, "behind it", "the importer can end successfully with the entity in the registry and in neither list"))
+			}
+		}
+	}
 }
 
 func ruleGuardRootIn(c *Ctx, r *Rep, pv *prov, fr frame, np *int) {
